@@ -1,4 +1,5 @@
 import Tibc.Props.C16
+import Tibc.Expect.Packet
 #print axioms Tibc.C16.packet_reimport_partial
 #print axioms Tibc.C16.packet_reimport_exact_iff
 #print axioms Tibc.C16.core_reimport
